@@ -41,7 +41,12 @@ def grid_pool():
 TWINS = {4: 6, 6: 4, 2: 7, 7: 2, 10: 11, 11: 10}
 
 
-NAMES = ["a", "b", "c", "d"]
+NAMES = ["a", "b", "c", "d", ""]     # the empty string is a legal zone name
+
+
+def nm(n):
+    """names on the wire are atoms: the empty name travels as `<empty>` (names are opaque to the model)"""
+    return "<empty>" if n == "" else n
 
 
 def rand_layout_desc(rng, pool):
@@ -100,13 +105,14 @@ def build(desc, pool):
 
 def wire(desc, pool):
     g = lambda i: T.grid_lit(pool[i])  # noqa: E731
-    return [[[n, g(i)] for n, i in desc["static"].items()], list(desc["fillable"]), list(desc["cz"]),
-            list(desc["local"]), [[n, g(i)] for n, i in desc["special"].items()]]
+    return [[[nm(n), g(i)] for n, i in desc["static"].items()], [nm(n) for n in desc["fillable"]], [nm(n) for n in desc["cz"]],
+            [nm(n) for n in desc["local"]], [[nm(n), g(i)] for n, i in desc["special"].items()]]
 
 
 def wire_of_layout(l):
-    return [[[n, T.grid_lit(z)] for n, z in l.static_traps.items()], sorted(l.fillable), sorted(l.has_cz),
-            sorted(l.has_local), [[n, T.grid_lit(z)] for n, z in l.special_grid.items()]]
+    return [[[nm(n), T.grid_lit(z)] for n, z in l.static_traps.items()], sorted(nm(n) for n in l.fillable),
+            sorted(nm(n) for n in l.has_cz), sorted(nm(n) for n in l.has_local),
+            [[nm(n), T.grid_lit(z)] for n, z in l.special_grid.items()]]
 
 
 def same_fields(a, b):
@@ -130,7 +136,7 @@ def canon_layout_obs(l):
     ids = []
     for n, z in itertools.chain(l.static_traps.items(), l.special_grid.items()):
         zid = l.get_zone_id(z)
-        ids.append("_" if zid is None else zid)
+        ids.append("_" if zid is None else nm(zid))
     try:
         bb = l.bounding_box()
         bbs = "(bbox " + " ".join(sx(frac(v)) for v in bb) + ")"
